@@ -222,44 +222,75 @@ func C17(c *Ctx) {
 			c.R.Break("C17-R2: %s: no goroutine start for the firing function", ti.name)
 		}
 		// ---- R3 never early
-		okEarly := false
 		whyEarly := "the emit is not guarded by a receive from the entry's timer"
-		for _, f := range flow.FactsAt(E.Block()) {
-			bo, ok := f.Cond.(*ssa.BinOp)
-			if !ok || bo.Op != token.EQL || !f.True {
-				continue
+		earlyAt := func(b *ssa.BasicBlock, extra []flow.Fact) bool {
+			okEarly := false
+			for _, f := range append(flow.FactsAt(b), extra...) {
+				bo, ok := f.Cond.(*ssa.BinOp)
+				if !ok || bo.Op != token.EQL || !f.True {
+					continue
+				}
+				ex, ok := bo.X.(*ssa.Extract)
+				if !ok || ex.Index != 0 {
+					continue
+				}
+				sel, ok := ex.Tuple.(*ssa.Select)
+				if !ok {
+					continue
+				}
+				k, isC := ssau.ConstInt(bo.Y)
+				if !isC || int(k) >= len(sel.States) {
+					continue
+				}
+				ch := sel.States[k].Chan
+				tm, is := ssau.LoadOfField(ch, "time", "Timer", "C")
+				if !is {
+					whyEarly = "the select case that leads to the emit does not receive from a time.Timer"
+					continue
+				}
+				nt, ok := tm.(*ssa.Call)
+				if !ok || ssau.CalleeName(nt) != "time.NewTimer" {
+					continue
+				}
+				due := untilOf(nt.Common().Args[0])
+				if due == nil {
+					whyEarly = "the timer's duration is not 'At - now'"
+					continue
+				}
+				if _, atOK := ssau.LoadOfField(due, prog.Abs(ti.pkg), ti.entryT, ti.atField); atOK {
+					okEarly = true
+				} else {
+					whyEarly = "the timer's duration is not 'entry.At - time.Now()'"
+				}
 			}
-			ex, ok := bo.X.(*ssa.Extract)
-			if !ok || ex.Index != 0 {
-				continue
+			return okEarly
+		}
+		okEarly := earlyAt(E.Block(), nil)
+		if !okEarly && innerE != E {
+			okEarly = earlyAt(innerE.Block(), nil)
+		}
+		if !okEarly {
+			// the wait may live in a helper that answers true only after the receive from the entry's timer
+			sites := factCallTrueIdx(E.Block())
+			if innerE != E {
+				sites = append(sites, factCallTrueIdx(innerE.Block())...)
 			}
-			sel, ok := ex.Tuple.(*ssa.Select)
-			if !ok {
-				continue
-			}
-			k, isC := ssau.ConstInt(bo.Y)
-			if !isC || int(k) >= len(sel.States) {
-				continue
-			}
-			ch := sel.States[k].Chan
-			tm, is := ssau.LoadOfField(ch, "time", "Timer", "C")
-			if !is {
-				whyEarly = "the select case that leads to the emit does not receive from a time.Timer"
-				continue
-			}
-			nt, ok := tm.(*ssa.Call)
-			if !ok || ssau.CalleeName(nt) != "time.NewTimer" {
-				continue
-			}
-			due := untilOf(nt.Common().Args[0])
-			if due == nil {
-				whyEarly = "the timer's duration is not 'At - now'"
-				continue
-			}
-			if _, atOK := ssau.LoadOfField(due, prog.Abs(ti.pkg), ti.entryT, ti.atField); atOK {
-				okEarly = true
-			} else {
-				whyEarly = "the timer's duration is not 'entry.At - time.Now()'"
+			for _, cs := range sites {
+				h := cs.call.Common().StaticCallee()
+				if h == nil || h.Blocks == nil || prog.PkgOf(h) != ti.pkg {
+					continue
+				}
+				for ri := 0; ri < h.Signature.Results().Len(); ri++ {
+					if cs.idx >= 0 && cs.idx != ri {
+						continue
+					}
+					if bt, isB := h.Signature.Results().At(ri).Type().Underlying().(*types.Basic); isB && bt.Kind() == types.Bool {
+						if trueImplies(h, ri, earlyAt) {
+							okEarly = true
+							c.R.Fn(fname(h))
+						}
+					}
+				}
 			}
 		}
 		c.R.Check(okEarly, "C17-R3", ti.name+": emit only after the timer fired", c.pos(E), "guarded by the receive from time.NewTimer(entry.At.Sub(time.Now()))", whyEarly)
@@ -296,7 +327,7 @@ func C17(c *Ctx) {
 		// goroutine's own entry, and that entry was deleted under the mutex on that edge before reaching b
 		revalidated := func(fn *ssa.Function, b *ssa.BasicBlock, extra []flow.Fact) (bool, string) {
 			var lookup *ssa.Lookup
-			for _, f := range append(flow.FactsAt(b), flow.Expand(extra)...) {
+			for _, f := range append(flow.Expand(flow.FactsAt(b)), flow.Expand(extra)...) {
 				bo, ok := f.Cond.(*ssa.BinOp)
 				if !ok || !((bo.Op == token.EQL && f.True) || (bo.Op == token.NEQ && !f.True)) {
 					continue
@@ -335,7 +366,7 @@ func C17(c *Ctx) {
 				return false, "the entry is not removed from the map before firing"
 			}
 			onEdge := false
-			for _, f := range flow.FactsAt(del.Block()) {
+			for _, f := range flow.Expand(flow.FactsAt(del.Block())) {
 				if bo, ok := f.Cond.(*ssa.BinOp); ok {
 					x, y := bo.X, bo.Y
 					if ti.ownEntry(x) {
@@ -349,15 +380,26 @@ func C17(c *Ctx) {
 				}
 			}
 			before := flow.Reachable(del.Block(), b, nil) && !flow.Reachable(b, del.Block(), nil)
+			if del.Block() == b && !flow.InCycle(b) {
+				before = true // decided at the end of the block that holds the delete
+			}
 			if !(onEdge && la.Held(del)[ti.lock] == lockset.W && before) {
 				return false, fmt.Sprintf("delete: on the identity edge=%v, under the mutex=%v, before this point=%v", onEdge, la.Held(del)[ti.lock] == lockset.W, before)
 			}
 			return true, ""
 		}
 		okReval, whyReval := revalidated(G, E.Block(), nil)
+		if !okReval && innerE != E {
+			// the emit sits in a helper the goroutine calls: the revalidation may be there, right before it
+			okReval, _ = revalidated(innerE.Parent(), innerE.Block(), nil)
+		}
+		claimSites := factCallTrue(E.Block())
+		if innerE != E {
+			claimSites = append(claimSites, factCallTrue(innerE.Block())...)
+		}
 		if !okReval {
 			// the claim may live in a helper that returns true only after a successful revalidation
-			for _, cl := range factCallTrue(E.Block()) {
+			for _, cl := range claimSites {
 				h := cl.Common().StaticCallee()
 				if h == nil || prog.PkgOf(h) != ti.pkg {
 					continue
@@ -629,7 +671,7 @@ func c17DelayFromAt(c *Ctx) {
 					scope = append(scope, g)
 				}
 			}
-			for _, d := range deepDefs(cl.Common().Args[4], scope) {
+			for _, d := range resolveThroughLocals(cl.Common().Args[4], scope) {
 				dc, isC := d.(*ssa.Call)
 				if !isC {
 					continue
